@@ -95,6 +95,8 @@ var f6Templates = []f6tpl{
 	{"pointer-to-struct-field-and-elem", nil, "type T_§ struct {\n\tA, B int\n}\n", "\tt := T_§{1, 2}\n\tpa := &t.B\n\t*pa = 7\n\ts := []int{1, 2, 3}\n\tps := &s[1]\n\t*ps = 8\n\ts = append(s, 4)\n\t*ps = 9\n\tm := [2]int{}\n\tpm := &m[1]\n\t*pm = 3\n\tprintln(t.B, s[1], m[1])\n"},
 	{"pointer-deref-compound-assign", []string{"+= 1", "-= 2", "*= 3", "++", "|= 8", "<<= 1"}, "", "\tfiller := 1000\n\t_ = filler + 1\n\tz := 5\n\tq := &z\n\t*q ¤\n\tprintln(z)\n"},
 	{"pointer-deref-compound-assign-other-kinds", []string{"float64", "string", "uint8"}, "", "\tvar z ¤ = V\n\tq := &z\n\t*q += V\n\tprintln(z)\n"},
+	{"tuple-assign-array-elements", []string{"local", "package", "captured", "struct-field", "slice"}, "var ga_§ = [3]int{1, 2, 3}\n", "TUPLE"},
+	{"recursive-struct-type", []string{"[]*N_§", "*N_§", "map[string]*N_§", "[]N_§"}, "type N_§ struct {\n\tv    int\n\tnext ¤\n}\n", "\tn := N_§{v: 1}\n\tm := N_§{v: 2}\n\t_ = m\n\tprintln(n.v, n.next == nil)\n"},
 	{"shadowing-and-scopes", nil, "", "\tx := 1\n\t{\n\t\tx := x + 1\n\t\tx++\n\t\tprintln(x)\n\t}\n\tif x := x * 10; x > 5 {\n\t\tprintln(x)\n\t} else {\n\t\tprintln(-x)\n\t}\n\tfor x := 0; x < 1; x++ {\n\t\tx := x + 100\n\t\tprintln(x)\n\t}\n\tprintln(x)\n"},
 	{"float-to-string-of-constants", nil, "", "\tconst big = 1 << 100\n\tvar f float64 = big\n\tvar g float32 = big >> 98\n\tprintln(f, g, big>>99)\n"},
 	{"typed-const-overflow-wrap-at-runtime", intTypes, "", "\tvar x ¤ = 1\n\tfor i := 0; i < 70; i++ {\n\t\tx = x*2 + 1\n\t}\n\tprintln(x)\n"},
@@ -135,6 +137,19 @@ func f6Cases() []goprog.Case {
 			case "nil-pointer-deref":
 				stmt := map[string]string{"field-read": "\tprintln(p.A)", "field-write": "\tp.A = 1", "method-value-recv": "\tf := p.V\n\t_ = f", "deref": "\tt := *p\n\t_ = t"}[p]
 				body = strings.Replace(body, "NILDEREF", stmt, 1)
+			case "tuple-assign-array-elements":
+				switch p {
+				case "local":
+					body = "\ta := [3]int{1, 2, 3}\n\ta[1], a[2] = 100, 200\n\tprintln(a[0], a[1], a[2])\n"
+				case "package":
+					body = "\tga_§[1], ga_§[2] = 100, 200\n\tprintln(ga_§[0], ga_§[1], ga_§[2])\n"
+				case "captured":
+					body = "\ta := [3]int{1, 2, 3}\n\tf := func() {\n\t\ta[1], a[2] = 100, 200\n\t}\n\tf()\n\tprintln(a[0], a[1], a[2])\n"
+				case "struct-field":
+					body = "\tvar s struct {\n\t\tarr [3]int\n\t}\n\tp := &s\n\tp.arr[1], p.arr[2] = 100, 200\n\tprintln(s.arr[0], s.arr[1], s.arr[2])\n"
+				case "slice":
+					body = "\ta := []int{1, 2, 3}\n\tf := func() {\n\t\ta[1], a[2] = 100, 200\n\t}\n\tf()\n\tprintln(a[0], a[1], a[2])\n"
+				}
 			case "array-index-out-of-range":
 				stmt := p
 				if !strings.Contains(p, "=") && !strings.Contains(p, "++") {
